@@ -256,6 +256,7 @@ func runC15(c *Ctx) error {
 		outs := make([]string, len(conc))
 		tips := []int{}
 		cas := []string{}
+		views := []string{}
 		var wg sync.WaitGroup
 		nthreads := len(conc)
 		for i := range conc {
@@ -279,6 +280,20 @@ func runC15(c *Ctx) error {
 						tips = append(tips, -2)
 					} else {
 						tips = append(tips, m.ID(t.Hash.String()))
+					}
+					// the reader's view of the chain at this moment: every row a by-height range query returns as
+					// LONGEST_CHAIN (one SQL statement = one snapshot).  "Every tip a reader observes is a longest-chain
+					// header of a structurally VALID chain": the view must have exactly one header per height, linked.
+					if rows, err := s.Repo.Headers.GetHeaderByHeightRange(0, 1000000); err == nil {
+						var vs []string
+						for _, r := range rows {
+							if r.State == domains.LongestChain {
+								vs = append(vs, fmt.Sprintf("%d.%d.%d", r.Height, m.ID(r.Hash.String()), m.ID(r.PreviousBlock.String())))
+							}
+						}
+						views = append(views, strings.Join(vs, ","))
+					} else {
+						views = append(views, "E")
 					}
 					if len(caIDs) > 0 {
 						// a common-ancestor request for headers of the SETUP (stored before the race, connected):
@@ -342,6 +357,10 @@ func runC15(c *Ctx) error {
 			ps[i] = strconv.Itoa(p)
 		}
 		h.X = append(h.X, fmt.Sprintf("readers:%d", nreads), "prefs:"+strings.Join(ps, "."), "trace:"+strings.Join(trace, "."))
+		if len(views) > 0 {
+			// realised observations of the reader (part of the case like the trace; judged by the oracle only)
+			h.X = append(h.X, "views:"+strings.Join(views, "/"))
+		}
 		if len(caIDs) > 0 {
 			cs := make([]string, len(caIDs))
 			for i, id := range caIDs {
